@@ -135,6 +135,29 @@ Theorem C15_pipeline_verdict :
 Proof. exact verdict. Qed.
 Print Assumptions C15_pipeline_verdict.
 
+(* import lists are LISTS with repetition: the dependency relation built from a project equals the one built from its
+   de-duplicated import lists (same edges, same cyclicity) ... *)
+Theorem C15_dedup_same_relation :
+  forall P ms,
+    (forall m d, In d (P m) <-> In d (nodup Nat.eq_dec (P m))) /\
+    (forall e, In e (edges_of P ms) <-> In e (edges_of (fun m => nodup Nat.eq_dec (P m)) ms)) /\
+    (cyclic (edges_of P ms) <-> cyclic (edges_of (fun m => nodup Nat.eq_dec (P m)) ms)).
+Proof. exact dedup_same_relation. Qed.
+Print Assumptions C15_dedup_same_relation.
+
+(* ... and the outcome of the parse phase depends only on the SET of targets each module imports — not on how often
+   or in which order they are written, nor on the schedule: same parsed modules, same verdict.  (This is what justifies
+   the harness oracle, which computes reachability and cyclicity on sets; a scanner that stops at a repeated import
+   changes the set and is therefore observable.) *)
+Theorem C15_verdict_multiplicity_order_independent :
+  forall P Q e s s',
+    (forall m d, In d (P m) <-> In d (Q m)) ->
+    steps P (init P e) s -> terminal s -> steps Q (init Q e) s' -> terminal s' ->
+    (forall m, In m (st_seen s) <-> In m (st_seen s')) /\
+    existsb is_err (st_res s) = existsb is_err (st_res s').
+Proof. exact verdict_multiplicity_order_independent. Qed.
+Print Assumptions C15_verdict_multiplicity_order_independent.
+
 (* non-vacuity of the closure hypotheses and of both verdict branches *)
 Theorem C15_sched_nonvacuous :
   (In 0 [0; 1] /\ forall a, In a [0; 1] -> incl (proj_cycle2 a) [0; 1]) /\
